@@ -275,3 +275,56 @@ v("c01-parser-raises-value-error", "C01", "PARSE-RAISES", L + "parser.py",
   "        raise GraphQLSyntaxError(\n            self._lexer.source,\n            token.start,\n            f\"Expected {get_token_kind_desc(kind)}, found {get_token_desc(token)}.\",\n        )",
   "        raise ValueError(\n            f\"Expected {get_token_kind_desc(kind)}, found {get_token_desc(token)}.\",\n        )")
 v("c01-parser-table-typo", "C01", "PARSE-RAISES", L + "parser.py", '        "fragment": "fragment_definition",', '        "fragment": "fragment_definitions",')
+
+# -- behaviour-preserving refactorings: every check must stay silent (false-alarm probes) ---------------
+def silent(id, prop, file, old, new, **kw):
+    v(id, prop, None, file, old, new, expect="silent", **kw)
+
+
+silent("ok-c01-loop-len-inline", "C01", L + "lexer.py",
+       "        body = self.source.body\n        body_length = len(body)\n        position = start + 1\n\n        while position < body_length:\n            char = body[position]\n            if not is_name_continue(char):",
+       "        body = self.source.body\n        position = start + 1\n\n        while position < len(body):\n            char = body[position]\n            if not is_name_continue(char):")
+silent("ok-c11-pop-guard-len", "C11", L + "visitor.py",
+       "        if is_leaving:\n            if path:\n                path_pop()", "        if is_leaving:\n            if len(path) > 0:\n                path_pop()")
+silent("ok-c16-range-two-tests", "C16", T + "scalars.py",
+       "    if not GRAPHQL_MIN_INT <= value <= GRAPHQL_MAX_INT:\n        msg = \"Int cannot represent non 32-bit signed integer value: \" + inspect(value)\n        raise GraphQLError(msg)\n    return int(value)",
+       "    if value < GRAPHQL_MIN_INT or value > GRAPHQL_MAX_INT:\n        msg = \"Int cannot represent non 32-bit signed integer value: \" + inspect(value)\n        raise GraphQLError(msg)\n    return int(value)")
+silent("ok-c15-bool-test-first", "C15", T + "scalars.py",
+       "    if isinstance(input_value, (int, float)) and not isinstance(input_value, bool):\n        return coerce_int_from_number(input_value)\n    msg = \"Int cannot represent non-integer value: \" + inspect(input_value)",
+       "    if not isinstance(input_value, bool) and isinstance(input_value, (int, float)):\n        return coerce_int_from_number(input_value)\n    msg = \"Int cannot represent non-integer value: \" + inspect(input_value)")
+silent("ok-c07-yield-via-local", "C07", E + "async_iterables.py",
+       "        async for item in items:\n            yield await callback(item)", "        async for item in items:\n            result = await callback(item)\n            yield result")
+silent("ok-c03-update-as-loop", "C03", E + "executor.py",
+       "                results.update(zip(awaitable_fields, awaited_results, strict=True))",
+       "                for field, value in zip(awaitable_fields, awaited_results, strict=True):\n                    results[field] = value")
+silent("ok-c03-pin-list-itself", "C03", E + "executor.py",
+       "relevant_sub_fields[key] = (tuple(field_details_list), collected_fields)", "relevant_sub_fields[key] = (list(field_details_list), collected_fields)")
+silent("ok-c20-guard-at-callers", "C20", T + "validate.py",
+       "        if not default_input or not is_input_type(input_value.type):\n            return", "        if not default_input:\n            return",
+       )
+VARIANTS[-1]["edits"] += [
+    {"file": T + "validate.py", "old": "                self.validate_default_value(arg, arg_str)\n\n    def validate_default_value(",
+     "new": "                if is_input_type(arg.type):\n                    self.validate_default_value(arg, arg_str)\n\n    def validate_default_value("},
+    {"file": T + "validate.py", "old": "                self.validate_default_value(arg, arg_str)\n\n    def validate_interfaces(",
+     "new": "                if is_input_type(arg.type):\n                    self.validate_default_value(arg, arg_str)\n\n    def validate_interfaces("},
+    {"file": T + "validate.py", "old": "            self.validate_default_value(field, field_str)\n",
+     "new": "            if is_input_type(field.type):\n                self.validate_default_value(field, field_str)\n"},
+]
+silent("ok-c12-typeinfo-pop-call", "C12", "src/graphql/utilities/type_info.py",
+       "    def leave_selection_set(self) -> None:\n        del self._parent_type_stack[-1:]", "    def leave_selection_set(self) -> None:\n        self._parent_type_stack.pop()")
+silent("ok-c01-located-error-getattr", "C01", "src/graphql/error/located_error.py",
+       "    try:\n        positions = original_error.positions  # type: ignore\n    except AttributeError:\n        positions = None\n    else:\n        if not is_collection_of(positions, int):\n            positions = None  # not a collection of offsets, ignore it\n",
+       "    positions = getattr(original_error, \"positions\", None)\n    if not is_collection_of(positions, int):\n        positions = None\n")
+silent("ok-c08-printer-local-parts", "C08", L + "printer.py",
+       "        return join((\"extend scalar\", node.name, join(node.directives, \" \")), \" \")",
+       "        name = node.name\n        directives = join(node.directives, \" \")\n        return join((\"extend scalar\", name, directives), \" \")")
+silent("ok-c10-get-location-two-steps", "C10", L + "source.py",
+       "        lines = _re_newline.split(self.body[:position])\n", "        prefix = self.body[:position]\n        lines = _re_newline.split(prefix)\n")
+silent("ok-c06-hook-via-local", "C06", E + "executor.py",
+       "        except Exception:\n            # e.g. the abort reason raised while executing root fields serially\n            self.run_async_work_finished_hook()\n            raise\n",
+       "        except Exception:\n            run_hook = self.run_async_work_finished_hook\n            run_hook()\n            raise\n")
+silent("ok-c14-has-explicit-if", "C14", V + "rules/overlapping_fields_can_be_merged.py",
+       "        return True if are_mutually_exclusive else are_mutually_exclusive == result",
+       "        if are_mutually_exclusive:\n            return True\n        return are_mutually_exclusive == result")
+silent("ok-c05-else-explicit-termination", "C05", E + "incremental/incremental_publisher.py",
+       "        else:  # WorkQueueTerminationEvent\n            context.has_next = False", "        elif isinstance(event, WorkQueueTerminationEvent):\n            context.has_next = False")
